@@ -79,6 +79,7 @@ theorem pendOkW_release {P : List Pend} {ns na : Nat} {rel : List Nat} {next : N
     · simp at hm; apply hs; simp [slotOf, hkind, hm]
   | del i f => rw [hkind] at this; exact this
   | cls i => rw [hkind] at this; exact this
+  | upl a b c => rw [hkind] at this; exact this
 
 /-- requests with the same slot are the same request -/
 theorem slot_unique {P : List Pend} (hn : (P.filterMap slotOf).Nodup) {p q : Pend} (hp : p ∈ P) (hq : q ∈ P) {k : Nat}
@@ -121,6 +122,7 @@ theorem runOf_slot {p : Pend} {x : Nat × Name} (h : runOf p = some x) : slotOf 
   | slow a b => simp [hk] at h
   | del i f => simp [hk] at h
   | cls i => simp [hk] at h
+  | upl a b c => simp [hk] at h
 
 /-- removing a request that is not a running handler leaves the monitor's `run` table alone -/
 theorem runOf_filter_tag_other {P : List Pend} (hn : (P.map (·.tag)).Nodup) {p : Pend} (hp : p ∈ P) (hr : runOf p = none) :
